@@ -43,17 +43,24 @@ def run(ck):
     d.mkdir(parents=True, exist_ok=True)
     dist = {"specs": 0, "templates": 0, "templates_compared": 0, "assignments_enumerated": 0, "valid_assignments": 0, "rows_emitted": 0, "front_points": 0,
             "max_assignments_in_a_template": 0, "templates_with_pruning": 0, "templates_all_invalid": 0, "skipped_too_large": 0, "twin_crosschecks": 0, "mapper_errors": 0,
-            "symbols_per_template": {}}
+            "symbols_per_template": {}, "metric_sets": {}}
     exprs, keys = [], []
-    pools = [(4, 6, 8, 12), (6, 8, 12, 16), (8, 12, 16, 24), (12, 24, 36)] if ck.tier == "thorough" else [(4, 6, 8, 12), (6, 8, 12, 16), (8, 12, 24)]
-    for i in range(ck.n(8, 60)):
+    pools = [(4, 6, 8, 12), (6, 8, 12, 16), (8, 12, 16, 24), (12, 24, 36), (24, 48)] if ck.tier == "thorough" else [(4, 6, 8, 12), (6, 8, 12, 16), (8, 12, 24), (6, 12)]
+    for i in range(ck.n(10, 60)):
         pool = rng.choice(pools)
         spec, _ = R.gen_search_spec(rng, fancy=(i % 2 == 1), pool=pool, levels=(2, 3, 3), enumerate_space=False)
         if i % 3 != 2:
             # tight buffers make validity pruning matter
             for L in spec["levels"][1:]:
-                L["size"] = rng.choice([None, 64, 128, 256, 512, 1024])
-        caps, err = T.capture_run(af, spec, d, ["ENERGY", "LATENCY"])
+                L["size"] = rng.choice([None, 48, 96, 96, 128, 256, 512, 1024])
+        mset = [["ENERGY", "LATENCY"], ["LATENCY"], ["ENERGY", "LATENCY"], ["ENERGY"]][i % 4]
+        dist["metric_sets"]["|".join(mset)] = dist["metric_sets"].get("|".join(mset), 0) + 1
+        if i % 4 == 1:
+            # latency-only with finite bandwidths everywhere: the latency is a max of several terms
+            for L in spec["levels"]:
+                L["rthr"] = L["rthr"] or rng.choice([1, 2, 4])
+                L["wthr"] = L["wthr"] or rng.choice([1, 2, 4])
+        caps, err = T.capture_run(af, spec, d, mset)
         dist["specs"] += 1
         dist["mapper_errors"] += err is not None
         for ent in caps:
@@ -81,8 +88,9 @@ def run(ck):
                     return np.full(len(sigmas), float(f))
                 fn = sp.lambdify(symobjs, f, modules="numpy")
                 return np.broadcast_to(np.asarray(fn(*[cols[s] for s in syms]), dtype=np.float64), (len(sigmas),)).copy()
-            lat = ev(forms["Total<SEP>latency"])
-            en = ev(forms["Total<SEP>dynamic_energy"]) + ev(forms["Total<SEP>leak_energy"])
+            zero = sp.Integer(0)
+            lat = ev(forms.get("Total<SEP>latency", zero))
+            en = ev(forms.get("Total<SEP>dynamic_energy", zero)) + ev(forms.get("Total<SEP>leak_energy", zero))
             ok = np.ones(len(sigmas), dtype=bool)
             for k, f in forms.items():
                 if k.startswith("usage<SEP>"):
@@ -92,16 +100,20 @@ def run(ck):
                 m = T.instantiate(tpl, sigmas[j])
                 dist["twin_crosschecks"] += 1
                 e_t, l_t = S.evaluate(spec, m)
-                if bool(ok[j]) != S.accepted(spec, m) or not near((lat[j], en[j]), (float(l_t), float(e_t)), 1e-6):
+                okv = (("Total<SEP>latency" not in forms or near((lat[j],), (float(l_t),), 1e-6))
+                       and ("Total<SEP>dynamic_energy" not in forms or near((en[j],), (float(e_t),), 1e-6)))
+                if bool(ok[j]) != S.accepted(spec, m) or not okv:
                     ck.failing_input({"spec": spec, "template": [list(n) for n in tpl], "assignment": sigmas[j], "formula_valid": bool(ok[j]), "twin_valid": S.accepted(spec, m),
                                       "formula_latency_energy": [float(lat[j]), float(en[j])], "twin_latency_energy": [float(l_t), float(e_t)],
                                       "arch_yaml": S.arch_yaml(spec), "workload_yaml": G.workload_yaml(spec), "mapping_yaml": G.mapping_yaml(spec, m)},
                                      what=f"template formulas and concrete evaluation disagree at {sigmas[j]} (validity or objectives)")
-            allv = [(float(lat[j]), float(en[j])) for j in range(len(sigmas)) if ok[j]]
+            rows = ent["table"]
+            ocols = [c for c in ("Total<SEP>latency", "Total<SEP>energy") if (c in rows[0] if rows else c.split("<SEP>")[1].upper() in mset)]
+            pick = lambda a, b: tuple(x for x, c in ((a, "Total<SEP>latency"), (b, "Total<SEP>energy")) if c in ocols)  # noqa
+            allv = [pick(float(lat[j]), float(en[j])) for j in range(len(sigmas)) if ok[j]]
             dist["valid_assignments"] += len(allv)
             ref = pfront(allv)
-            rows = ent["table"]
-            got_all = [(r["Total<SEP>latency"], r["Total<SEP>energy"]) for r in rows]
+            got_all = [tuple(r[c] for c in ocols) for r in rows]
             got = pfront(got_all)
             dist["rows_emitted"] += len(rows)
             dist["front_points"] += len(ref)
@@ -116,24 +128,24 @@ def run(ck):
             if lost or extra:
                 wit = None
                 if lost:
-                    j = [j for j in range(len(sigmas)) if ok[j] and near((lat[j], en[j]), lost[0], 1e-9)][0]
+                    j = [j for j in range(len(sigmas)) if ok[j] and near(pick(lat[j], en[j]), lost[0], 1e-9)][0]
                     wit = sigmas[j]
-                    what = (f"Pareto-optimal tile shapes {wit} with (latency, energy) = {lost[0]} are valid but no emitted row matches them "
+                    what = (f"Pareto-optimal tile shapes {wit} with {ocols} = {lost[0]} are valid but no emitted row matches them "
                             f"(emitted front {got[:4]}, exhaustive front {ref[:4]})")
                 else:
                     # the emitted row: which assignment is it, and why is it not on the exhaustive front
-                    r = [r for r in rows if near((r["Total<SEP>latency"], r["Total<SEP>energy"]), extra[0], 1e-9)][0]
+                    r = [r for r in rows if near(tuple(r[c] for c in ocols), extra[0], 1e-9)][0]
                     wit = {s: int(round(r[s])) for s in syms if s in r}
                     js = [j for j, sg in enumerate(sigmas) if sg == wit]
                     why = "not a perfect assignment of the template" if not js else ("exceeds a memory (usage > 1)" if not ok[js[0]] else "its objectives differ from the formulas' values")
-                    what = f"emitted row {wit} with (latency, energy) = {extra[0]} is not on the exhaustive front: {why}"
+                    what = f"emitted row {wit} with {ocols} = {extra[0]} is not on the exhaustive front: {why}"
                 m = T.instantiate(tpl, wit) if wit and all(s in wit for s in syms) else None
                 ck.failing_input({"spec": spec, "template": [list(n) for n in tpl], "symbols": syms, "witness_assignment": wit, "lost": [list(v) for v in lost[:4]],
                                   "extra": [list(v) for v in extra[:4]], "emitted_front": [list(v) for v in got[:8]], "exhaustive_front": [list(v) for v in ref[:8]],
                                   "arch_yaml": S.arch_yaml(spec), "workload_yaml": G.workload_yaml(spec), "mapping_yaml": G.mapping_yaml(spec, m) if m else None},
                                  what=what)
             # Coq front on small templates
-            if 2 <= len(allv) <= 150 and len(exprs) < ck.n(30, 200):
+            if 2 <= len(allv) <= 150 and len(ocols) == 2 and len(exprs) < ck.n(30, 200):
                 ints = sorted({(int(round(a * 4096)), int(round(b * 4096))) for a, b in allv})
                 exprs.append(f"front {coq_list(ints, lambda v: coq_list(v, coq_Z))}")
                 keys.append(sorted((int(round(a * 4096)), int(round(b * 4096))) for a, b in pfront([(x / 4096, y / 4096) for x, y in ints])))
